@@ -51,6 +51,31 @@ OpenPathAt(j) ==
   ELSE KItem("hdk.derive", "named", [seed |-> BytesToHex(Prng(K("oseed", <<>>), 32)), path |-> OpenPaths[j - Len(OpenPaths)]])
 NOpenPaths == 2 * Len(OpenPaths)
 
+\* well-known path prefixes (the tool's own default account path and its ancestors, other coins' BIP-44 / 49 / 84
+\* account paths) continued by every sequence of 0..3 further components over {0, 1', 5, 2147483647'}: a path is a
+\* sequence of components, whatever its beginning looks like.  Every second item derives a key along it.
+KnownPrefixes == <<"m", "m/44'", "m/44'/60'", "m/44'/60'/0'", "m/44'/60'/0'/0", "m/44'/60'/0'/0/0", "m/44'/60'/0'/0/7", "m/44'/60'/0'/1",
+                   "m/44'/60'/1'/0", "m/44'/61'/0'/0", "m/44'/1'/0'/0", "m/44'/0'/0'/0", "m/49'/0'/0'/0", "m/84'/0'/0'/0", "m/44/60/0/0",
+                   "m/0'/0'", "m/44'/60'/0'/0/2147483647">>
+ExtComps == <<"0", "1'", "5", "2147483647'">>
+ExtNo(k) ==        \* k in 0..84 : the k-th sequence of at most 3 components
+  LET len == IF k = 0 THEN 0 ELSE IF k <= 4 THEN 1 ELSE IF k <= 20 THEN 2 ELSE 3
+      m   == IF len = 1 THEN k - 1 ELSE IF len = 2 THEN k - 5 ELSE k - 21
+  IN  [i \in 1..len |-> ExtComps[1 + ((m \div (4 ^ (len - i))) % 4)]]
+RECURSIVE JoinExt(_)
+JoinExt(xs) == IF xs = <<>> THEN "" ELSE "/" \o Head(xs) \o JoinExt(Tail(xs))
+NPrefixExt == Len(KnownPrefixes) * 85
+PrefixExtAt(j) ==
+  LET text == KnownPrefixes[1 + ((j - 1) \div 85)] \o JoinExt(ExtNo((j - 1) % 85))
+  IN  IF j % 2 = 0 THEN KItem("path.parse", "known_prefix_extended", [text |-> text])
+      ELSE KItem("hdk.derive", "known_prefix_extended", [seed |-> BytesToHex(Prng(K("pxseed", <<j % 5>>), 32)), path |-> text])
+
+\* every character U+0001..U+00FF before and after the digit of a path component
+NPathEveryChar == 2 * 255
+PathEveryCharAt(j) ==
+  LET cp == 1 + ((j - 1) % 255)
+  IN  KItem("path.parse", "every_character", [text |-> IF j <= 255 THEN "m/" \o CpsToStr(<<cp>>) \o "1" ELSE "m/1" \o CpsToStr(<<cp>>)])
+
 ForIdx == <<<<>>, <<1>>, <<2>>, <<7>>, <<1, 0, 0>>, BnSub(Two31, <<1>>), Two31, BnSub(BnPow2(32), <<1>>), BnPow2(32), BnPow2(63)>>
 ForIndexAt(j) == KItem("path.for_index", "for_index", [index |-> Str(DecCodes(BnToDec(ForIdx[j])))])
 
@@ -194,4 +219,13 @@ SigMutAt(j) ==
       pos  == IF q < 132 THEN q + 1 ELSE q - 131
   IN  KItem("sig.parse", "mutate_every_position",
             [text |-> Utf8ToStr(SubSeq(text, 1, pos - 1) \o MutChars[c] \o SubSeq(text, pos + 1, Len(text)))])
+\* every character U+0001..U+00FF in the place of the first digit of r and of the last digit of v
+NSigEveryChar == 2 * 255
+SigEveryCharAt(j) ==
+  LET cp   == 1 + ((j - 1) % 255)
+      sig  == Sign(SignKeys[1 + (j % 4)], Prng(K("pe", <<j % 3>>), 32))
+      full == PrintSig([r |-> sig.r, s |-> sig.s, par |-> sig.par])
+      pos  == IF j <= 255 THEN 3 ELSE 132
+  IN  KItem("sig.parse", "every_character",
+            [text |-> Utf8ToStr(SubSeq(full, 1, pos - 1)) \o CpsToStr(<<cp>>) \o Utf8ToStr(SubSeq(full, pos + 1, Len(full)))])
 =============================================================================
